@@ -182,7 +182,7 @@ nonPubidCharRegexp = re.compile("[^\x20\x0D\x0Aa-zA-Z0-9\\-'()+,./:=?;!*#@$_%]")
 
 
 class InfosetFilter(object):
-    replacementRegexp = re.compile(r"U[\dA-F]{5,5}")
+    replacementRegexp = re.compile(r"U[0-9A-F]{5,5}")
 
     def __init__(self,
                  dropXmlnsLocalName=False,
